@@ -59,6 +59,7 @@ type State struct {
 	qf        map[*Term][]*qfact // lazily instantiated universal facts per base array
 	qfDone    map[[2]*Term]bool
 	trail     []int // blocks of the root function visited (trace mode only)
+	events    *Term // ghost event sequence (sort Evs), nil if untracked
 }
 
 func NewState() *State {
@@ -77,6 +78,7 @@ func (s *State) Clone() *State {
 	n.panicking = s.panicking
 	n.allocs = s.allocs
 	n.trail = s.trail
+	n.events = s.events
 	if s.qf != nil {
 		n.qf = make(map[*Term][]*qfact, len(s.qf))
 		for k, v := range s.qf {
@@ -942,7 +944,7 @@ func (e *Exec) step(st *State, fr *Frame, b *ssa.BasicBlock, i int, in ssa.Instr
 		switch in.Op {
 		case token.MUL:
 			loc := x.One()
-			if !e.mayPanic(st, fr, Eq(loc, NilLoc), "nil-deref", in, nil) {
+			if !derivedAddr(in.X) && !e.mayPanic(st, fr, Eq(loc, NilLoc), "nil-deref", in, nil) {
 				return false, false
 			}
 			fr.vals[in] = &Value{T: in.Type(), L: e.loadT(st, loc, in.Type())}
@@ -1095,7 +1097,7 @@ func (e *Exec) step(st *State, fr *Frame, b *ssa.BasicBlock, i int, in ssa.Instr
 		e.next(st, fr, in)
 	case *ssa.Store:
 		loc := e.val(st, fr, in.Addr).One()
-		if !e.mayPanic(st, fr, Eq(loc, NilLoc), "nil-deref", in, nil) {
+		if !derivedAddr(in.Addr) && !e.mayPanic(st, fr, Eq(loc, NilLoc), "nil-deref", in, nil) {
 			return false, false
 		}
 		e.storeT(st, loc, e.val(st, fr, in.Val).L)
@@ -1637,7 +1639,7 @@ func (e *Exec) typeAssert(st *State, fr *Frame, in *ssa.TypeAssert) bool {
 		fr.vals[in] = &Value{T: in.Type(), L: []*Term{v}}
 		return true
 	}
-	ok := dynTypeTest(v, T)
+	ok := st.Simp(dynTypeTest(v, T))
 	if in.CommaOk {
 		L := e.unboxValue(st, T, v)
 		z := zeroLeaves(T)
